@@ -44,7 +44,9 @@ var kindNames = [...]string{"start", "load", "store", "rmw", "lock", "unlock", "
 
 func (k Kind) String() string { return kindNames[k] }
 
-const MaxThreads = 4
+// MaxThreads bounds the threads of one execution: the harness threads plus the goroutines the code
+// under test starts while the scheduler is attached (Go).
+const MaxThreads = 6
 
 type VC [MaxThreads]uint32
 
@@ -690,6 +692,41 @@ func (s *Sched) apply(t int) (Outcome, string) {
 // Body is the code of one thread.
 type Body func()
 
+// Go is what a `go` statement of the code under test becomes (tools/instrument): with a scheduler
+// attached the new goroutine is one more thread of the execution (its first event happens after the
+// spawning thread's events so far); without one it is a plain goroutine.
+func Go(fn func()) {
+	s := cur.Load()
+	if s == nil {
+		go fn()
+		return
+	}
+	s.spawn(fn)
+}
+
+//go:norace
+func (s *Sched) spawn(fn func()) {
+	if s.aborted {
+		return
+	}
+	if s.n >= MaxThreads {
+		s.res.Outcome = OInfra
+		s.res.Detail = fmt.Sprintf("the code under test started more goroutines than the scheduler supports (%d threads)", MaxThreads)
+		handoff(s.done)
+		s.waitGrant(s.running) // never granted: the execution is torn down
+		return
+	}
+	p := &s.th[s.running]
+	i := s.n
+	c := &s.th[i]
+	*c = thread{grant: make(chan struct{}, 1), pendK: KStart}
+	c.vc = p.vc
+	c.hash = mix(p.hash, 0x5BA3117)
+	s.n++
+	s.wg.Add(1)
+	go s.threadMain(i, fn)
+}
+
 // Run executes bodies under the scheduler with the given config and returns
 // when the execution is over and all thread goroutines have exited.
 func Run(bodies []Body, cfg Config) *Result {
@@ -732,8 +769,8 @@ func Run(bodies []Body, cfg Config) *Result {
 		s.objs[oi] = objRec{}
 	}
 	scratchObjs, scratchUsed = s.objs, s.usedObjs
-	s.res.ThreadOp = make([]int, n)
-	for i := 0; i < n; i++ {
+	s.res.ThreadOp = make([]int, s.n)
+	for i := 0; i < s.n; i++ {
 		s.res.ThreadOp[i] = s.th[i].nops
 	}
 	if s.panicVal != nil && s.res.Outcome != OInfra {
